@@ -251,6 +251,25 @@ def _verdict(a, prop, mod, plan, results, inconclusive, extras, workers, t0):
         inconclusive.append(f"only {len(nontrivial)} distinct non-trivial cases")
 
     merged_extra = {}
+    # mechanism checkpoints (E-TRACE): reached in any worker counts as reached
+    traces = [e.pop("trace") for e in extras if isinstance(e.get("trace"), dict)]
+    if traces:
+        reached = set().union(*[set(t["reached"]) for t in traces])
+        named = set().union(*[set(t["reached"]) | set(t["not_reached"]) for t in traces])
+        unresolved = set().union(*[set(t["unresolved"]) for t in traces])
+        lines = {}
+        for t in traces:
+            for f, c in t.get("lines_executed", {}).items():
+                lines[f] = max(lines.get(f, 0), c)
+        merged_extra["mechanism_checkpoints"] = {
+            "reached": sorted(reached), "not_reached": sorted(named - reached), "unresolved": sorted(unresolved),
+            "osyris_lines_executed_per_file(max over workers)": lines}
+        from .checkpoints import FOR
+        for name in getattr(mod, "MANDATORY_CHECKPOINTS", [c[0] for c in FOR.get(prop, [])]):
+            if name in unresolved:
+                continue      # the code was refactored: reported, not judged
+            if name not in reached:
+                inconclusive.append(f"mechanism checkpoint '{name}' was never executed by the workload")
     for e in extras:
         for k, v in e.items():
             if isinstance(v, (int, float)) and not isinstance(v, bool):
